@@ -403,6 +403,7 @@ func TestVerifC04API(t *testing.T) {
 		}
 		return ns
 	}()})
+	c04ApiCachedPart(t, rep)
 	if err := rep.Write(); err != nil {
 		t.Fatal(err)
 	}
